@@ -77,7 +77,7 @@ type Case struct {
 }
 
 // genericKinds are the structure-blind / wire-level mutation kinds every target supports.
-var genericKinds = []string{"valid", "trunc", "flip", "del-byte", "ins-byte", "op", "op-top", "splice", "dup-tail", "zero-run", "raw-junk"}
+var genericKinds = []string{"valid", "trunc", "flip", "del-byte", "ins-byte", "op", "op-top", "splice", "dup-tail", "zero-run", "raw-junk", "cross"}
 
 // seed is one valid message of a fixture.
 type seed struct {
@@ -225,6 +225,13 @@ func materialise(fx fixture, in In) (v int, data []byte, label string, ok bool) 
 			data[i] = 0
 		}
 		ok = string(data) != string(b)
+	case "cross":
+		// a valid message of ANOTHER entry point delivered here (a request where an update is expected, ...)
+		o := seeds[mutate.Mod(in.B, len(seeds))]
+		if o.V == v {
+			return v, nil, "", false
+		}
+		return v, o.Data, "cross", true
 	case "raw-junk":
 		n := mutate.Mod(in.A, 96)
 		data = make([]byte, n)
@@ -633,6 +640,11 @@ func sweepCases(name string, fix uint64, si int, s seed, sem []string, firstOfDa
 	for pos := 0; pos < n; pos += fstep {
 		for m := 0; m < 3; m++ {
 			ins = append(ins, In{Base: si, Kind: "flip", A: pos, B: m})
+		}
+	}
+	if firstOfData {
+		for b := 0; b < 24; b++ {
+			ins = append(ins, In{Base: si, Kind: "cross", B: b})
 		}
 	}
 	paths := mutate.IdxPaths(s.Data, 6, 400)
